@@ -12,7 +12,8 @@ import uuid
 from harness import core, fmt_vhdx
 from harness.core import Z, zpairs
 from harness.main import Finding, Suite
-from harness.props import c03, c04, c05, c06, c17
+from harness.props import c02, c03, c04, c05, c06, c17
+import zlib
 from harness.readers import outcome_of
 
 PROPERTY = "C11"
@@ -383,6 +384,91 @@ class SnapChain(Suite):
         return {"nshots": len(case["shots"])}
 
 
+# ----------------------------------------------------------------------------- decompression bombs
+def qcow2_bomb(cluster_bits, inflated):
+    """a version-3 image of one compressed cluster whose deflate stream inflates to `inflated` bytes"""
+    cs = 1 << cluster_bits
+    co = zlib.compressobj(9, zlib.DEFLATED, -12)
+    comp = co.compress(b"\x00" * inflated) + co.flush()
+    l1_off, l2_off, data_off = cs, 2 * cs, 3 * cs
+    nsect = (len(comp) + (data_off & 511) + 511) // 512
+    shift = 62 - (cluster_bits - 8)
+    assert nsect - 1 < (1 << (cluster_bits - 8)), "stream too long for this cluster size"
+    desc = (1 << 62) | ((nsect - 1) << shift) | data_off
+    hdr = struct.pack(">IIQIIQIIQQIIQQQQII", 0x514649FB, 3, 0, 0, cluster_bits, cs, 0, 1, l1_off, 4 * cs + len(comp), 1, 0, 0,
+                      0, 0, 0, 4, 104)
+    chunks = {0: hdr + b"\x00" * 8, l1_off: struct.pack(">Q", l2_off | (1 << 63)), l2_off: struct.pack(">Q", desc),
+              data_off: comp}
+    return core.SparseFile(data_off + nsect * 512 + cs, chunks, fill="zero")
+
+
+class Bombs(Suite):
+    """compressed units that inflate far beyond the allocation unit: peak memory must stay near the unit size"""
+    name = "bombs"
+    per_case_timeout = 60.0
+    mem_mb = 3072
+
+    def generate(self, rng, tier):
+        out = []
+        for cb in (16, 18):
+            for inflated in (32 << 20, 96 << 20):
+                for req in ([0, 512], [0, 1 << cb], [(1 << cb) - 512, 512], [100, (1 << cb) - 100]):
+                    out.append({"fmt": "qcow2", "cluster_bits": cb, "inflated": inflated, "req": req})
+        for gs in (16, 128):
+            for inflated in (32 << 20, 64 << 20):
+                out.append({"fmt": "vmdk", "grain_size": gs, "inflated": inflated, "req": [0, 1], "salt": 0})
+                out.append({"fmt": "vmdk", "grain_size": gs, "inflated": inflated, "req": [0, gs], "salt": 0})
+        return out
+
+    def impl(self, case):
+        import tracemalloc
+        if case["fmt"] == "qcow2":
+            from dissect.hypervisor.disk.qcow2 import QCow2
+            fh = qcow2_bomb(case["cluster_bits"], case["inflated"])
+            q = QCow2(fh)
+            tracemalloc.start()
+            try:
+                q.seek(case["req"][0])
+                r = q.read(case["req"][1])
+                peak = tracemalloc.get_traced_memory()[1]
+            except Exception as e:  # noqa: BLE001
+                peak = tracemalloc.get_traced_memory()[1]
+                tracemalloc.stop()
+                return {"outcome": "exc", "exc": type(e).__name__, "peak": peak, "unit": 1 << case["cluster_bits"]}
+            tracemalloc.stop()
+            return {"outcome": "ok", "n": len(r), "peak": peak, "unit": 1 << case["cluster_bits"]}
+        from dissect.hypervisor.disk.vmdk import VMDK
+        fh = c02.build_bomb(case)
+        v = VMDK(fh)
+        tracemalloc.start()
+        try:
+            r = v.read_sectors(*case["req"])
+            peak = tracemalloc.get_traced_memory()[1]
+        except Exception as e:  # noqa: BLE001
+            peak = tracemalloc.get_traced_memory()[1]
+            tracemalloc.stop()
+            return {"outcome": "exc", "exc": type(e).__name__, "peak": peak, "unit": case["grain_size"] * 512}
+        tracemalloc.stop()
+        return {"outcome": "ok", "n": len(r), "peak": peak, "unit": case["grain_size"] * 512}
+
+    def judge(self, case, impl_res, coq_val):
+        o = impl_res.get("outcome")
+        if o not in ("ok", "exc"):
+            return [Finding("impl_fault", f"{case['fmt']} bomb {case}: implementation {o}", f"{case['fmt']}:bomb:{o}")]
+        bound = 16 * impl_res["unit"] + (8 << 20)
+        if impl_res["peak"] > bound:
+            return [Finding("impl_vs_spec", f"{case['fmt']} unit of {impl_res['unit']} bytes inflating to {case['inflated']}: "
+                            f"request {case['req']} allocated {impl_res['peak']} bytes (bound {bound})",
+                            f"{case['fmt']}:bomb:memory")]
+        return []
+
+    def nontrivial(self, case, impl_res, coq_val):
+        return core.sha(core.jdump(case).encode())
+
+    def dist(self, case):
+        return {"fmt": case["fmt"]}
+
+
 class HypervRaw(c17.RawSuite):
     """corpus-driven: crafted Hyper-V files (object-table cycles ...) must open or raise, never hang"""
     name = "raw"
@@ -391,5 +477,5 @@ class HypervRaw(c17.RawSuite):
         return []
 
 
-SUITES = {"raw": HypervRaw(), "wild_vdi": WildVdi(), "wild_hds": WildHds(), "wild_vhdx": WildVhdx(), "mutants": Mutants(),
+SUITES = {"raw": HypervRaw(), "bombs": Bombs(), "wild_vdi": WildVdi(), "wild_hds": WildHds(), "wild_vhdx": WildVhdx(), "mutants": Mutants(),
           "snapchain": SnapChain()}
